@@ -733,6 +733,60 @@ func genSingle(r *lib.Rand) Case {
 	return c
 }
 
+// runHTTPAbort: a request that is given up because its body cannot be sent twice (a blob upload from a reader that cannot
+// rewind, after a first attempt that failed) must give its slot back: with Max[0] slots, Iters such uploads, then G plain
+// requests - all of them finish.
+func runHTTPAbort(c Case, res *lib.Result) {
+	mr := memreg.New("reg.example", memreg.Features{})
+	mr.PutManifest("repo", "tag", "application/vnd.oci.image.manifest.v1+json", []byte(`{"schemaVersion":2,"mediaType":"application/vnd.oci.image.manifest.v1+json","config":{"mediaType":"application/vnd.oci.empty.v1+json","digest":"sha256:44136fa355b3678a1146ad16f7e8649e94fb4fc21fe77e8310c060f61caaff8a","size":2},"layers":[]}`))
+	var mu sync.Mutex
+	failed := map[string]bool{}
+	rt := &memrt.RT{}
+	rt.Handler = func(req *http.Request, body []byte, n int) *http.Response {
+		if req.Method == "PUT" && strings.Contains(req.URL.Path, "/blobs/uploads/") {
+			mu.Lock()
+			first := !failed[req.URL.Path]
+			failed[req.URL.Path] = true
+			mu.Unlock()
+			if first {
+				return memrt.Resp(500, nil, nil)
+			}
+		}
+		return mr.Handle(req, body, n)
+	}
+	rc := regclient.New(regclient.WithConfigHost(config.Host{Name: "reg.example", Hostname: "reg.example", TLS: config.TLSDisabled, ReqConcurrent: int64(c.Max[0])}),
+		regclient.WithRegOpts(reg.WithHTTPClient(&http.Client{Transport: rt}), reg.WithDelay(time.Millisecond, 3*time.Millisecond), reg.WithRetryLimit(6)))
+	ctx, cancel := context.WithTimeout(context.Background(), 6*time.Second)
+	defer cancel()
+	r, _ := ref.New("reg.example/repo:tag")
+	for i := 0; i < c.Iters; i++ {
+		nb := []byte(fmt.Sprintf("blob %d from a reader that cannot rewind", i))
+		// (whether this upload succeeds is not the point: it may legitimately fail, its slot must come back)
+		_, _ = rc.BlobPut(ctx, r, descriptor.Descriptor{Digest: digest.FromBytes(nb), Size: int64(len(nb))}, io.MultiReader(bytes.NewReader(nb)))
+	}
+	var wg sync.WaitGroup
+	errs := make([]error, c.G)
+	for g := 0; g < c.G; g++ {
+		wg.Add(1)
+		go func(g int) {
+			defer wg.Done()
+			_, errs[g] = rc.ManifestHead(ctx, r)
+		}(g)
+	}
+	wg.Wait()
+	if ctx.Err() != nil {
+		res.Fail("slot-lost-after-abandoned-request", fmt.Sprintf("after %d uploads that could not be re-sent, %d plain requests through a host throttle of %d slot(s) did not finish within 6s (errors %v)", c.Iters, c.G, c.Max[0], errs), c)
+		return
+	}
+	for _, e := range errs {
+		if e != nil {
+			res.Fail("slot-lost-after-abandoned-request", fmt.Sprintf("a plain request after abandoned uploads failed: %v", e), c)
+			return
+		}
+	}
+	res.Count(fmt.Sprintf("httpabort:max=%d,n=%d", c.Max[0], c.Iters))
+}
+
 // runCrossCopy: AcquireMulti as image copies use it.  G pairs of copies run in opposite directions between two registries
 // whose host throttles have Max[0] slots each (a blob copy asks for the source's and the target's throttle together): every
 // copy finishes, whatever the interleaving, and is complete.
@@ -834,6 +888,8 @@ func runCaseRaw(c Case, res *lib.Result) string {
 		runHTTPResume(c, res)
 	case "crosscopy":
 		runCrossCopy(c, res)
+	case "httpabort":
+		runHTTPAbort(c, res)
 	}
 	return ""
 }
@@ -882,6 +938,9 @@ func Run(o lib.Opts) {
 	// the host throttle under resumed reads: one slot and one reader, n slots and n readers, more readers than slots
 	for _, mg := range [][3]int{{1, 1, 1}, {1, 1, 2}, {1, 3, 1}, {2, 2, 2}, {3, 3, 1}, {2, 5, 2}} {
 		all = append(all, Case{Kind: "httpresume", Max: []int{mg[0]}, G: mg[1], Iters: mg[2]})
+	}
+	for _, mg := range [][3]int{{1, 1, 1}, {1, 2, 2}, {2, 3, 2}, {3, 4, 3}} {
+		all = append(all, Case{Kind: "httpabort", Max: []int{mg[0]}, G: mg[2], Iters: mg[1]})
 	}
 	for i, mg := range [][2]int{{1, 1}, {1, 2}, {2, 2}, {3, 3}, {1, 3}} {
 		all = append(all, Case{Kind: "crosscopy", Max: []int{mg[0]}, G: mg[1], Seed: uint64(900 + i)})
